@@ -512,9 +512,18 @@ def run_c10(ctx):
                "sampling::sample", "metadata-q-vectors")
         dr = md.fields.get("decompoisiton_result") or md.fields.get("decomposition_result")
         if isinstance(dr, Struct):
-            ok = scalar_of(dr.fields["q_transposed_inverse"].at("a", "b"), "qti") == leaf("QTi", "a", "b") and \
-                scalar_of(dr.fields["inverse"].at("a", "b"), "inv") == leaf("Linv", "a", "b")
-            ctx.ob("C10-b", "Metadata's decomposition result is the one used", ok, "sampling::sample", "metadata-decomposition")
+            bad_ = []
+            for fld_, nm_ in (("q_transposed_inverse", "QTi"), ("inverse", "Linv"), ("q_transposed", "QT")):
+                v_ = dr.fields.get(fld_)
+                if not (isinstance(v_, Arr) and scalar_of(v_.at("a", "b"), fld_) == leaf(nm_, "a", "b")):
+                    bad_.append(fld_)
+            d_ = dr.fields.get("determinant")
+            if not (isinstance(d_, Num) and d_.expr == Expr.symbol("u")):
+                bad_.append("determinant")
+            ctx.ob("C10-b", "Metadata's decomposition result is the one used, field by field (a copy made for the metadata copies every field from itself)",
+                   not bad_, "sampling::sample", "metadata-decomposition", detail="fields that are not the decomposition's own: %s" % bad_)
+        else:
+            ctx.ob("C10-b", "Metadata carries the decomposition result", False, "sampling::sample", "metadata-decomposition", detail="field not found / not summarised")
     guarded_clause(ctx, "C10-b", w.roles["shift"].path, "shift", b)
     ctx.rule("C10-c", "the two decomposition fields the momentum map consumes are consistent: inverse = Q⁻ᵀ·(Q⁻ᵀ)ᵀ, so the covariance (v/2λ)·Q⁻ᵀQ⁻¹ is (v/2λ)·L⁻¹")
     matrix_wiring_clause(ctx, "C10-c", "covariance")
@@ -982,6 +991,13 @@ def run_c16d(ctx, RID="C16-d"):
         res = I.run_fn(subs[0].path, [world.matrix("A", "n"), world.matrix("B", "n")])
         compare(ctx, RID, "(A−B)[r,c] == A[r,c] − B[r,c]", scalar_of(res.at("r", "c"), "entry"), leaf("A", "r", "c") - leaf("B", "r", "c"), subs[0].path,
                 "matrix-sub", {"r": "n", "c": "n"}, symmetric=())
+        # the product `inverse · self` whose distance from the identity is measured: an operator that flushes small entries "as noise"
+        # removes exactly the residue the test exists to see
+        muls = [b for b in find_local_impl(ctx, "arith::Mul", "&", "mul") if "SquareMatrix" in (f.fns[b.path].get("impl_self") or "")]
+        if len(muls) != 1:
+            raise Undecided("impl Mul<&SquareMatrix> for &SquareMatrix (found %d)" % len(muls))
+        ctx.fn(muls[0].path)
+        verify_matrix_op(ctx, RID, muls[0].path)
     guarded_clause(ctx, RID, "matrix::SquareMatrix", "stability-helpers", body)
 
 
